@@ -469,3 +469,38 @@ fault("c14-header-cache-on-server", "C14", "R14b", (HTTP, "        self.requesth
 fault("c14-child-returns", "C14", "R14c", (SERVER, "                finally:\n                    os._exit(status)", "                finally:\n                    pass"))
 fault("c14-no-active-children", "C14", "R14c", (SERVER, "            self.active_children.add(pid)\n", ""))
 fault("c14-thread-no-finally", "C14", "R14c", (SERVER, "        except Exception:\n            self.handle_error(request, client_address)\n        finally:\n            self.shutdown_request(request)", "        except ValueError:\n            self.handle_error(request, client_address)\n        finally:\n            self.shutdown_request(request)"))
+
+# ======================================================================= C17
+fault("c17-no-handler", "C17", "R17a", (TALPY, "\t\tself.commandHandler [TAL_OMITTAG] = self.cmdOmitTag\n", ""))
+fault("c17-new-opcode", "C17", "R17a", (TALPY, "\t\treturn (TAL_OMITTAG, expression)", "\t\treturn (METAL_FILL_SLOT, expression)"))
+fault("c17-map-unhandled", "C17", "R17a", (TALPY, "\t\tself.commandHandler [TAL_REPLACE] = self.compileCmdReplace\n", ""))
+fault("c17-swap-priority", "C17", "R17b", (TALPY, "TAL_CONDITION = 2\n", "TAL_CONDITION = 3\n"), (TALPY, "TAL_REPEAT = 3\n", "TAL_REPEAT = 2\n"))
+fault("c17-no-sort", "C17", "R17b", (TALPY, "\t\t# Sort the tags by priority\n\t\tfoundTALAtts.sort()\n", ""))
+twin("c17-twin-sorted", "C17", (TALPY, "\t\tfoundTALAtts.sort()\n\t\t\n\t\t# We handle the METAL before the TAL\n\t\tallCommands = foundMETALAtts + foundTALAtts", "\t\t\n\t\t# We handle the METAL before the TAL\n\t\tallCommands = foundMETALAtts + sorted(foundTALAtts)"))
+fault("c17-repeat-wrong-slot", "C17", "R17c", (TALPY, "\t\t\t\tself.outputTag = 0\n\t\t\t\tself.programCounter = self.symbolTable [args[2]]\n\t\t\t\t# Restore the state of repeatAttributesCopy", "\t\t\t\tself.outputTag = 0\n\t\t\t\tself.programCounter = self.symbolTable [args[1]]\n\t\t\t\t# Restore the state of repeatAttributesCopy"))
+fault("c17-content-symbol-moved", "C17", "R17c", (TALPY, "\t\treturn (TAL_CONTENT, (replaceFlag, structureFlag, express, self.endTagSymbol))", "\t\treturn (TAL_CONTENT, (replaceFlag, structureFlag, self.endTagSymbol, express))"))
+fault("c17-symbol-after-endscope", "C17", "R17c", (TALPY, "\t\t\t\t\tself.symbolLocationTable [endTagSymbol] = len (self.commandList)\n\t\t\t\t\t\n\t\t\t\t\t# We need a \"close scope and tag\" command\n\t\t\t\t\tself.addCommand((TAL_ENDTAG_ENDSCOPE, (tag[0], omitTagFlag, singletonTag)))", "\t\t\t\t\tself.addCommand((TAL_ENDTAG_ENDSCOPE, (tag[0], omitTagFlag, singletonTag)))\n\t\t\t\t\tself.symbolLocationTable [endTagSymbol] = len (self.commandList)"))
+twin("c17-twin-unpack-args", "C17", (TALPY, "\t\tresult = self.context.evaluate (args[0], self.originalAttributes)\n\t\t#~ if (result is None or (not result)):", "\t\texpression = args[0]\n\t\tresult = self.context.evaluate (expression, self.originalAttributes)\n\t\t#~ if (result is None or (not result)):"))
+fault("c17-scope-permuted", "C17", "R17d", (TALPY, "\t\tself.scopeStack.append ((self.movePCForward\n\t\t\t\t\t\t\t\t,self.movePCBack\n\t\t\t\t\t\t\t\t,self.outputTag", "\t\tself.scopeStack.append ((self.movePCBack\n\t\t\t\t\t\t\t\t,self.movePCForward\n\t\t\t\t\t\t\t\t,self.outputTag"))
+fault("c17-scope-field-dropped", "C17", "R17d", (TALPY, "\t\t\t\t\t\t\t\t,self.tagContent\n\t\t\t\t\t\t\t\t,self.localVarsDefined))", "\t\t\t\t\t\t\t\t,self.tagContent))"))
+fault("c17-no-progress", "C17", "R17e", (TALPY, "\t\tif (result is not None and result):\n\t\t\t# Turn tag output off\n\t\t\tself.outputTag = 0\n\t\tself.programCounter += 1", "\t\tif (result is not None and result):\n\t\t\t# Turn tag output off\n\t\t\tself.outputTag = 0\n\t\t\treturn\n\t\tself.programCounter += 1"))
+twin("c17-twin-pc-local", "C17", (TALPY, "\tdef cmdNoOp (self, command, args):\n\t\tself.programCounter += 1", "\tdef cmdNoOp (self, command, args):\n\t\tnxt = self.programCounter + 1\n\t\tself.programCounter = nxt"))
+fault("c17-d14-unfixed", "C17", "R17f", (TALES, "if (isinstance (val, ContextVariable)): result = val.rawValue()", "if (isinstance (val, ContextVariable)): result = val.realValue"))
+fault("c17-d14b-unfixed", "C17", "R17g", (TALPY, '\t\t\telif (attProps[0] == "text"):', '\t\t\telif (attProps[1] == "text"):'))
+
+# ======================================================================= C18
+fault("c18-text-unescaped", "C18", "R18a", (TALPY, "\t\t\t\tif (isinstance (resultVal, str)):\n\t\t\t\t\tself.file.write (html.escape (resultVal, quote=False))", "\t\t\t\tif (isinstance (resultVal, str)):\n\t\t\t\t\tself.file.write (resultVal)"))
+fault("c18-structure-arms-swapped", "C18", "R18a", (TALPY, "\t\t\tcontentType, resultVal = self.tagContent\n\t\t\tif (contentType):", "\t\t\tcontentType, resultVal = self.tagContent\n\t\t\tif (not contentType):"))
+fault("c18-attr-unescaped", "C18", "R18a", (TALPY, "\t\t\tresult.append ('=\"')\n\t\t\tresult.append (html.escape (attValue, quote=1))\n\t\t\tresult.append ('\"')\n\t\tif (singletonFlag):\n\t\t\tresult.append (\" />\")\n\t\telse:\n\t\t\tresult.append (\">\")\n\t\treturn \"\".join (result)\n\t\n\tdef initialise", "\t\t\tresult.append ('=\"')\n\t\t\tresult.append (attValue)\n\t\t\tresult.append ('\"')\n\t\tif (singletonFlag):\n\t\t\tresult.append (\" />\")\n\t\telse:\n\t\t\tresult.append (\">\")\n\t\treturn \"\".join (result)\n\t\n\tdef initialise"))
+fault("c18-attr-noquote", "C18", "R18a", (TALPY, "\t\t\t\tresult.append (html.escape (attValue, quote=1))\n\t\t\t\tresult.append ('\"')\n\t\tif (singletonFlag):", "\t\t\t\tresult.append (html.escape (attValue, quote=0))\n\t\t\t\tresult.append ('\"')\n\t\tif (singletonFlag):"))
+twin("c18-twin-escape-local", "C18", (TALPY, "\t\t\t\tif (isinstance (resultVal, str)):\n\t\t\t\t\tself.file.write (html.escape (resultVal, quote=False))", "\t\t\t\tif (isinstance (resultVal, str)):\n\t\t\t\t\tself.file.write (html.escape (resultVal))"))
+fault("c18-python-ungated", "C18", "R18b", (TALES, "\t\tif (not self.allowPythonPath):\n\t\t\tself.log.warning (\"Parameter allowPythonPath is false.  NOT Evaluating python expression %s\" % expr)\n\t\t\treturn self.false\n", ""))
+fault("c18-python-gate-inverted", "C18", "R18b", (TALES, "\t\tif (not self.allowPythonPath):", "\t\tif (self.allowPythonPath):"))
+fault("c18-eval-in-string", "C18", "R18b", (TALES, "\t\t\t\t\t\t\t\t\tpathResult = self.evaluate (path)\n\t\t\t\t\t\t\t\texcept PathNotFoundException as e:", "\t\t\t\t\t\t\t\t\tpathResult = eval (path) if path.startswith ('!') else self.evaluate (path)\n\t\t\t\t\t\t\t\texcept PathNotFoundException as e:"))
+fault("c18-flag-forced", "C18", "R18b", (TALES, "\t\tself.allowPythonPath = allowPythonPath\n", "\t\tself.allowPythonPath = 1\n"))
+fault("c18-handler-ignores-option", "C18", "R18b", (TAL, "context = simpleTALES.Context(allowPythonPath=self.allowpythonpath)", "context = simpleTALES.Context(allowPythonPath=1)"))
+twin("c18-twin-gate-nested", "C18", (TALES, "\t\tif (not self.allowPythonPath):\n\t\t\tself.log.warning (\"Parameter allowPythonPath is false.  NOT Evaluating python expression %s\" % expr)\n\t\t\treturn self.false\n", "\t\tif (self.allowPythonPath):\n\t\t\tpass\n\t\telse:\n\t\t\treturn self.false\n"))
+fault("c18-no-poplocals", "C18", "R18c", (TALPY, "\t\tself.localVarsDefined = foundLocals\n", "\t\tself.localVarsDefined = 0\n"))
+fault("c18-pop-unconditional", "C18", "R18c", (TALPY, "\t\tif (self.localVarsDefined):\n\t\t\tself.context.popLocals()\n", "\t\tself.context.popLocals()\n"))
+fault("c18-flag-not-saved", "C18", "R18c", (TALPY, "\t\t\t\t\t\t\t\t,self.tagContent\n\t\t\t\t\t\t\t\t,self.localVarsDefined))", "\t\t\t\t\t\t\t\t,self.tagContent))"), (TALPY, "self.repeatVariable,self.tagContent,self.localVarsDefined = self.scopeStack.pop()", "self.repeatVariable,self.tagContent = self.scopeStack.pop()"))
+twin("c18-twin-flag-eq1", "C18", (TALPY, "\t\tif (self.localVarsDefined):\n\t\t\tself.context.popLocals()\n", "\t\tif (self.localVarsDefined == 1):\n\t\t\tself.context.popLocals()\n"))
